@@ -5,7 +5,9 @@ use crate::runner::{panic_sig, Ctx, Fail, Obs, PLane, Property};
 use crate::sim::{self, err_kind, quiesce, Recv, SimResult};
 use crate::simops::{self, Single};
 use crate::{ensure, fail};
-use ldap3::adapters::EntriesOnly;
+use crate::ber::{self, Tlv};
+use crate::model::{CritForm, RCtl};
+use ldap3::adapters::{Adapter, EntriesOnly, PagedResults};
 use ldap3::Scope;
 use proptest::collection::vec;
 use proptest::prelude::*;
@@ -19,7 +21,14 @@ use tokio::time::Instant;
 pub enum Kind {
     Single(Single),
     /// gaps (ms) before each item and before the final result; adapted = EntriesOnly
-    Search { gaps: Vec<Option<u64>>, adapted: bool },
+    Search {
+        gaps: Vec<Option<u64>>,
+        adapted: bool,
+        /// Some = driven through the PagedResults adapter; the listed (non-final) steps are page ends
+        /// (a SearchResultDone carrying a cookie, answered by a follow-up request under a new id)
+        #[serde(default)]
+        paged: Option<Vec<usize>>,
+    },
 }
 
 #[derive(Clone, Debug, Serialize, Deserialize)]
@@ -29,6 +38,9 @@ pub struct Op {
     pub timeout_ms: Option<u64>,
     /// single ops: response delay in ms (None = never)
     pub arrival_ms: Option<u64>,
+    /// run on the same handle as the previous operation, `start_ms` after that one completed
+    #[serde(default)]
+    pub chained: bool,
 }
 
 #[derive(Clone, Debug, Serialize, Deserialize)]
@@ -49,17 +61,25 @@ fn rel_delay(t: u64) -> BoxedStrategy<Option<u64>> {
 }
 
 fn op_strat() -> BoxedStrategy<Op> {
-    let timed_single = (simops::single_strat(), 0u64..300, timeout_val()).prop_flat_map(|(k, start_ms, t)| rel_delay(t).prop_map(move |a| Op { kind: Kind::Single(k), start_ms, timeout_ms: Some(t), arrival_ms: a }));
-    let untimed_single = (simops::single_strat(), 0u64..300, 0u64..3000).prop_map(|(k, start_ms, a)| Op { kind: Kind::Single(k), start_ms, timeout_ms: None, arrival_ms: Some(a) });
-    let timed_search = (0u64..300, timeout_val(), any::<bool>(), 0usize..5).prop_flat_map(|(start_ms, t, adapted, n)| {
-        vec(prop_oneof![6 => (0u64..=t.saturating_sub(2)).prop_map(Some), 1 => (t + 2..t + 50).prop_map(Some), 1 => Just(None)], n + 1).prop_map(move |gaps| Op { kind: Kind::Search { gaps, adapted }, start_ms, timeout_ms: Some(t), arrival_ms: None })
+    let timed_single = (simops::single_strat(), 0u64..300, timeout_val()).prop_flat_map(|(k, start_ms, t)| rel_delay(t).prop_map(move |a| Op { kind: Kind::Single(k), start_ms, timeout_ms: Some(t), arrival_ms: a, chained: false }));
+    let untimed_single = (simops::single_strat(), 0u64..300, 0u64..3000).prop_map(|(k, start_ms, a)| Op { kind: Kind::Single(k), start_ms, timeout_ms: None, arrival_ms: Some(a), chained: false });
+    fn page_ends(n: usize) -> BoxedStrategy<Option<Vec<usize>>> {
+        // n = number of non-final steps
+        prop_oneof![3 => Just(None), 2 => vec(any::<bool>(), n).prop_map(|m| Some(m.iter().enumerate().filter(|(_, b)| **b).map(|(i, _)| i).collect::<Vec<usize>>()))].boxed()
+    }
+    let timed_search = (0u64..300, timeout_val(), any::<bool>(), 0usize..6).prop_flat_map(|(start_ms, t, adapted, n)| {
+        (vec(prop_oneof![6 => (0u64..=t.saturating_sub(2)).prop_map(Some), 1 => (t + 2..t + 50).prop_map(Some), 1 => Just(None)], n + 1), page_ends(n))
+            .prop_map(move |(gaps, paged)| Op { kind: Kind::Search { gaps, adapted, paged }, start_ms, timeout_ms: Some(t), arrival_ms: None, chained: false })
     });
-    let untimed_search = (0u64..300, any::<bool>(), vec((0u64..400).prop_map(Some), 1..5)).prop_map(|(start_ms, adapted, gaps)| Op { kind: Kind::Search { gaps, adapted }, start_ms, timeout_ms: None, arrival_ms: None });
+    let untimed_search = (0u64..300, any::<bool>(), (1usize..5).prop_flat_map(|n| (vec((0u64..400).prop_map(Some), n), page_ends(n - 1))))
+        .prop_map(|(start_ms, adapted, (gaps, paged))| Op { kind: Kind::Search { gaps, adapted, paged }, start_ms, timeout_ms: None, arrival_ms: None, chained: false });
     prop_oneof![4 => timed_single, 2 => untimed_single, 3 => timed_search, 1 => untimed_search].boxed()
 }
 
 fn strat(_: &Ctx) -> BoxedStrategy<Case> {
-    (vec(op_strat(), 1..=8), any::<u64>()).prop_map(|(ops, sched)| Case { ops, sched }).boxed()
+    (vec((op_strat(), proptest::bool::weighted(0.4)), 1..=8), any::<u64>())
+        .prop_map(|(ops, sched)| Case { ops: ops.into_iter().enumerate().map(|(i, (mut o, ch))| { o.chained = ch && i > 0; o }).collect(), sched })
+        .boxed()
 }
 
 #[derive(Debug, Clone, Default)]
@@ -68,12 +88,82 @@ struct OpObs {
     tokens: Vec<String>,
     end: String,
     t_end_ms: u64,
+    /// absolute start instant (ms since the connection was made)
+    t_start_ms: u64,
     /// for searches: (relative ms, outcome) of every next()
     calls: Vec<(u64, String)>,
 }
 
 fn tok(i: usize, s: usize) -> String {
     format!("t{}-{}", i, s)
+}
+
+async fn run_op(ldap: &mut ldap3::Ldap, i: usize, op: &Op, t0: Instant) -> OpObs {
+    let mk = simops::marker(i);
+    let mut o = OpObs::default();
+    let started = Instant::now();
+    o.t_start_ms = (started - t0).as_millis() as u64;
+    if let Some(t) = op.timeout_ms {
+        ldap.with_timeout(Duration::from_millis(t));
+    }
+    match &op.kind {
+        Kind::Single(k) => {
+            let r = simops::exec_single(ldap, *k, &mk).await;
+            o.id = ldap.last_id();
+            match r {
+                Ok(res) => {
+                    o.tokens.push(res.text);
+                    o.end = "ok".into();
+                }
+                Err(e) => o.end = err_kind(&e),
+            }
+        }
+        Kind::Search { adapted, paged, .. } => {
+            let attrs = vec!["a"];
+            let s = match (paged.is_some(), *adapted) {
+                (false, true) => ldap.streaming_search_with(EntriesOnly::new(), &mk, Scope::Subtree, "(a=b)", attrs).await,
+                (false, false) => ldap.streaming_search(&mk, Scope::Subtree, "(a=b)", attrs).await,
+                (true, false) => ldap.streaming_search_with(PagedResults::new(7), &mk, Scope::Subtree, "(a=b)", attrs).await,
+                (true, true) => {
+                    let ad: Vec<Box<dyn Adapter<_, _>>> = vec![Box::new(EntriesOnly::new()), Box::new(PagedResults::new(7))];
+                    ldap.streaming_search_with(ad, &mk, Scope::Subtree, "(a=b)", attrs).await
+                }
+            };
+            match s {
+                Ok(mut s) => {
+                    loop {
+                        let r = s.next().await;
+                        let at = started.elapsed().as_millis() as u64;
+                        match r {
+                            Ok(Some(re)) => {
+                                o.tokens.push(simops::item_token(&re).1);
+                                o.calls.push((at, "item".into()));
+                            }
+                            Ok(None) => {
+                                o.calls.push((at, "end".into()));
+                                o.end = "ok".into();
+                                break;
+                            }
+                            Err(e) => {
+                                o.calls.push((at, err_kind(&e)));
+                                o.end = err_kind(&e);
+                                break;
+                            }
+                        }
+                    }
+                    // the id of the request that was outstanding last (the current page)
+                    o.id = s.ldap_handle().last_id();
+                    let fin = s.finish().await;
+                    if o.end == "ok" {
+                        o.tokens.push(fin.text);
+                    }
+                }
+                Err(e) => o.end = format!("start:{}", err_kind(&e)),
+            }
+        }
+    }
+    o.t_end_ms = started.elapsed().as_millis() as u64;
+    o
 }
 
 pub fn check(case: &Case, obs: &mut Obs) -> Result<(), Fail> {
@@ -88,6 +178,8 @@ pub fn check(case: &Case, obs: &mut Obs) -> Result<(), Fail> {
         let wire_ids: Arc<Mutex<HashMap<usize, i64>>> = Arc::new(Mutex::new(HashMap::new()));
         let wi = wire_ids.clone();
         let srv = tokio::spawn(async move {
+            // follow-up requests of a paged search reach the script of the operation they belong to
+            let mut scripts: HashMap<usize, tokio::sync::mpsc::UnboundedSender<i64>> = HashMap::new();
             loop {
                 match wire.recv().await {
                     Recv::Msg(Ok(m), _, _) => {
@@ -103,6 +195,12 @@ pub fn check(case: &Case, obs: &mut Obs) -> Result<(), Fail> {
                             }
                             continue;
                         }
+                        if let Some(tx) = scripts.get(&i) {
+                            let _ = tx.send(m.id);
+                            continue;
+                        }
+                        let (tx, mut rx) = tokio::sync::mpsc::unbounded_channel::<i64>();
+                        scripts.insert(i, tx);
                         let op = c2.ops[i].clone();
                         let w2 = wire.clone();
                         tokio::spawn(async move {
@@ -113,12 +211,26 @@ pub fn check(case: &Case, obs: &mut Obs) -> Result<(), Fail> {
                                         w2.push(&RespMsg::new(m.id, Resp::result(k.resp_tag(), Res::ok(&tok(i, 0)))).encode());
                                     }
                                 }
-                                Kind::Search { gaps, .. } => {
+                                Kind::Search { gaps, paged, .. } => {
+                                    let mut cur = m.id;
+                                    let pctl = |cookie: &[u8]| {
+                                        Some(vec![RCtl { oid: "1.2.840.113556.1.4.319".into(), crit: CritForm::Absent, val: Some(ber::encode(&Tlv::seq(vec![Tlv::int(0), Tlv::octets(cookie.to_vec())]))) }])
+                                    };
                                     for (s, g) in gaps.iter().enumerate() {
                                         let Some(g) = g else { return };
                                         tokio::time::sleep(Duration::from_millis(*g)).await;
-                                        let resp = if s + 1 == gaps.len() { Resp::result(5, Res::ok(&tok(i, s))) } else { Resp::Entry(Entry::simple(&tok(i, s))) };
-                                        w2.push(&RespMsg::new(m.id, resp).encode());
+                                        if s + 1 == gaps.len() {
+                                            w2.push(&RespMsg { id: cur, resp: Resp::result(5, Res::ok(&tok(i, s))), ctrls: if paged.is_some() { pctl(b"") } else { None } }.encode());
+                                        } else if paged.as_ref().map(|p| p.contains(&s)).unwrap_or(false) {
+                                            w2.push(&RespMsg { id: cur, resp: Resp::result(5, Res::ok("page")), ctrls: pctl(format!("ck{}", s).as_bytes()) }.encode());
+                                            // the next page is only produced for the follow-up request
+                                            match rx.recv().await {
+                                                Some(id) => cur = id,
+                                                None => return,
+                                            }
+                                        } else {
+                                            w2.push(&RespMsg::new(cur, Resp::Entry(Entry::simple(&tok(i, s)))).encode());
+                                        }
                                     }
                                 }
                             }
@@ -133,72 +245,38 @@ pub fn check(case: &Case, obs: &mut Obs) -> Result<(), Fail> {
                 }
             }
         });
-        let mut tasks = Vec::new();
+        // consecutive `chained` operations share one task and one handle
+        let mut groups: Vec<Vec<(usize, Op)>> = Vec::new();
         for (i, op) in c.ops.iter().cloned().enumerate() {
+            if op.chained && !groups.is_empty() {
+                groups.last_mut().unwrap().push((i, op));
+            } else {
+                groups.push(vec![(i, op)]);
+            }
+        }
+        let mut tasks = Vec::new();
+        for grp in groups {
             let mut ldap = conn.ldap.clone();
-            tasks.push(tokio::spawn(async move {
-                tokio::time::sleep(Duration::from_millis(op.start_ms)).await;
-                let mk = simops::marker(i);
-                let mut o = OpObs::default();
-                let started = Instant::now();
-                if let Some(t) = op.timeout_ms {
-                    ldap.with_timeout(Duration::from_millis(t));
+            let n = grp.len();
+            tasks.push((n, tokio::spawn(async move {
+                let mut outs = Vec::new();
+                for (i, op) in grp {
+                    tokio::time::sleep(Duration::from_millis(op.start_ms)).await;
+                    outs.push(run_op(&mut ldap, i, &op, t0).await);
                 }
-                match &op.kind {
-                    Kind::Single(k) => {
-                        let r = simops::exec_single(&mut ldap, *k, &mk).await;
-                        o.id = ldap.last_id();
-                        match r {
-                            Ok(res) => {
-                                o.tokens.push(res.text);
-                                o.end = "ok".into();
-                            }
-                            Err(e) => o.end = err_kind(&e),
-                        }
-                    }
-                    Kind::Search { adapted, .. } => {
-                        let s = if *adapted { ldap.streaming_search_with(EntriesOnly::new(), &mk, Scope::Subtree, "(a=b)", vec!["a"]).await } else { ldap.streaming_search(&mk, Scope::Subtree, "(a=b)", vec!["a"]).await };
-                        match s {
-                            Ok(mut s) => {
-                                o.id = s.ldap_handle().last_id();
-                                loop {
-                                    let r = s.next().await;
-                                    let at = started.elapsed().as_millis() as u64;
-                                    match r {
-                                        Ok(Some(re)) => {
-                                            o.tokens.push(simops::item_token(&re).1);
-                                            o.calls.push((at, "item".into()));
-                                        }
-                                        Ok(None) => {
-                                            o.calls.push((at, "end".into()));
-                                            o.end = "ok".into();
-                                            break;
-                                        }
-                                        Err(e) => {
-                                            o.calls.push((at, err_kind(&e)));
-                                            o.end = err_kind(&e);
-                                            break;
-                                        }
-                                    }
-                                }
-                                let fin = s.finish().await;
-                                if o.end == "ok" {
-                                    o.tokens.push(fin.text);
-                                }
-                            }
-                            Err(e) => o.end = format!("start:{}", err_kind(&e)),
-                        }
-                    }
-                }
-                o.t_end_ms = started.elapsed().as_millis() as u64;
-                o
-            }));
+                outs
+            })));
         }
         let mut observed = Vec::new();
-        for t in tasks {
+        for (n, t) in tasks {
             match t.await {
-                Ok(o) => observed.push(Ok(o)),
-                Err(_) => observed.push(Err(crate::runner::take_panics().into_iter().last().unwrap_or_default())),
+                Ok(os) => observed.extend(os.into_iter().map(Ok)),
+                Err(_) => {
+                    let p = crate::runner::take_panics().into_iter().last().unwrap_or_default();
+                    for _ in 0..n {
+                        observed.push(Err(p.clone()));
+                    }
+                }
             }
         }
         // let every scripted late reply arrive and be discarded
@@ -260,6 +338,9 @@ pub fn check(case: &Case, obs: &mut Obs) -> Result<(), Fail> {
             Ok(o) => o,
             Err(p) => fail!(panic_sig(p), "operation {} panicked: {}", i, p),
         };
+        if op.chained && i > 0 && observed[i - 1].as_ref().map(|p| p.end == "Timeout").unwrap_or(false) {
+            obs.label(if op.timeout_ms.is_none() { "untimed-op-on-handle-that-just-timed-out" } else { "timed-op-on-handle-that-just-timed-out" });
+        }
         ensure!(ids.get(&i).copied() == Some(o.id as i64), "c12:id", "operation {} reports id {} but was sent under {:?}", i, o.id, ids.get(&i));
         match &op.kind {
             Kind::Single(_) => {
@@ -279,12 +360,13 @@ pub fn check(case: &Case, obs: &mut Obs) -> Result<(), Fail> {
                 ensure!(o.t_end_ms >= want_at && o.t_end_ms <= want_at + 1, "c12:wrong-instant", "operation {} (timeout {:?} ms, response after {:?} ms) completed {} ms after its start, expected {} ms", i, op.timeout_ms, op.arrival_ms, o.t_end_ms, want_at);
                 ensure!(o.tokens == want_tokens, "c12:wrong-response", "operation {} observed {:?}, expected {:?}", i, o.tokens, want_tokens);
             }
-            Kind::Search { gaps, adapted: _ } => {
+            Kind::Search { gaps, adapted: _, paged } => {
                 // walk the gaps: every next() is issued when the previous item was delivered
                 let mut now = 0u64;
                 let mut want_tokens = Vec::new();
                 let mut want_calls: Vec<(u64, &str)> = Vec::new();
                 let mut want_end = "ok";
+                let mut pages_seen = 0;
                 for (s, g) in gaps.iter().enumerate() {
                     let fires = match (op.timeout_ms, g) {
                         (Some(t), Some(g)) => *g > t,
@@ -296,12 +378,22 @@ pub fn check(case: &Case, obs: &mut Obs) -> Result<(), Fail> {
                         want_calls.push((now, "Timeout"));
                         want_end = "Timeout";
                         any_timeout = true;
+                        if pages_seen > 0 {
+                            obs.label("timeout-on-page>=2");
+                            late_reply = true;
+                        }
                         if g.is_some() {
                             late_reply = true;
                         }
                         break;
                     }
                     now += g.unwrap();
+                    if s + 1 != gaps.len() && paged.as_ref().map(|p| p.contains(&s)).unwrap_or(false) {
+                        // a page end is consumed inside next(): the follow-up request goes out at once
+                        // and the wait for the next page's first item starts a fresh timer
+                        pages_seen += 1;
+                        continue;
+                    }
                     want_tokens.push(tok(i, s));
                     want_calls.push((now, if s + 1 == gaps.len() { "end" } else { "item" }));
                 }
@@ -322,7 +414,7 @@ pub fn check(case: &Case, obs: &mut Obs) -> Result<(), Fail> {
         ensure!(id == used && outcome == "ok", "c12:reused-id-does-not-work", "an operation that was handed the timed-out id {} again (it travelled under {}) ended with {:?}", id, used, outcome);
     }
     // overlap: a timed-out op while another op was outstanding that later completed
-    let spans: Vec<(u64, u64, bool)> = case.ops.iter().zip(&observed).map(|(op, o)| { let o = o.as_ref().unwrap(); (op.start_ms, op.start_ms + o.t_end_ms, o.end == "Timeout") }).collect();
+    let spans: Vec<(u64, u64, bool)> = case.ops.iter().zip(&observed).map(|(op, o)| { let o = o.as_ref().unwrap(); { let _ = op; (o.t_start_ms, o.t_start_ms + o.t_end_ms, o.end == "Timeout") } }).collect();
     for (i, a) in spans.iter().enumerate() {
         for (j, b) in spans.iter().enumerate() {
             if i != j && a.2 && !b.2 && b.0 < a.1 && b.1 > a.1 {
@@ -349,7 +441,7 @@ pub fn property() -> Property {
     Property {
         id: "C12",
         level: "exploration",
-        rule: "generated histories of 1-8 concurrent operations on cloned handles over the paused virtual clock: single-result operations and direct/EntriesOnly searches, each optionally timed (3 ms .. 1 day), started at generated instants; scripted response arrival clearly before the deadline (<= T-2 ms), clearly after it (late reply, >= T+2 ms) or never; searches with per-item gaps below or above the timeout. Oracle (exact to Tokio's 1 ms timer granularity): a timed operation returns Timeout at start+T if nothing arrived, else its own response at the arrival instant; a search's deadline restarts at every next() call, so it times out at the first gap > T and not otherwise however long the whole search takes; every other operation completes with its own tokens; late replies are seen by nobody; the driver survives; at quiescence no id is reserved and each timed-out id is handed out again by the allocator and works for the operation that gets it. Non-trivial: an operation times out while another is outstanding and later completes, or a late reply is scripted. Distinct = debug rendering of the operations.",
+        rule: "generated histories of 1-8 operations over the paused virtual clock, concurrent on cloned handles or chained on one handle (40%: the next operation reuses the handle of the previous one, so a timed-out operation is followed by timed and untimed ones on the same handle): single-result operations and direct/EntriesOnly/PagedResults/[EntriesOnly,PagedResults] searches (paged ones with generated page ends, each answered by a follow-up request under a fresh id), each optionally timed (3 ms .. 1 day), started at generated instants; scripted response arrival clearly before the deadline (<= T-2 ms), clearly after it (late reply, >= T+2 ms) or never; searches with per-item gaps below or above the timeout. Oracle (exact to Tokio's 1 ms timer granularity): a timed operation returns Timeout at start+T if nothing arrived, else its own response at the arrival instant; a search's deadline restarts at every next() call, so it times out at the first gap > T and not otherwise however long the whole search takes; every other operation completes with its own tokens; late replies are seen by nobody; the driver survives; at quiescence no id is reserved and each timed-out id is handed out again by the allocator and works for the operation that gets it. Non-trivial: an operation times out while another is outstanding and later completes, or a late reply is scripted. Distinct = debug rendering of the operations.",
         assumptions: &["no ties: |arrival - deadline| >= 2 ms", "tokio paused clock: virtual time advances only when every task is idle"],
         lanes: vec![Box::new(PLane { name: "timeouts", cases: |t| t.pick(2_000, 30_000), strat, check })],
         workers: (8, 16),
